@@ -14,8 +14,10 @@
   makes the paths absolute by string surgery (`rel2abs`) and recurses through ports
   that have no message.
 
-  The model follows the code *with* fixes/C13-scan-deps-subtree-lookup applied: parent
-  levels are looked up with a trailing '/' (see that patch's message).
+  The model follows the code *with* fixes/C13-scan-deps-subtree-lookup applied (parent
+  levels are looked up with a trailing '/', see that patch's message), with
+  fixes/C13-scan-deps-self-edge (an entry that resolves to the scanned path itself is skipped) and
+  fixes/C13-scan-deps-self-port (the `self:` port of every level's table is read as well).
   No Mathlib import.
 -/
 import RtoscModel.Save.App
@@ -96,50 +98,97 @@ def buildMap : List Path → Nat → MsgMap → MsgMap
   | [], _, m => m
   | n :: r, i, m => buildMap r (i + 1) (m.emplace n i)
 
+/-- `cur_portname.substr(0, last_slash+1)`: the directory of a level -/
+def dirOf (p : Path) : Path :=
+  match lastSlash p with
+  | some k => p.take (k + 1)
+  | none => []
+
+/-- `cur_portname.c_str() + last_slash + 1`: the last component of a level -/
+def leafOf (p : Path) : Path :=
+  match lastSlash p with
+  | some k => p.drop (k + 1)
+  | none => p
+
+def selfName : Path := ['s', 'e', 'l', 'f', ':']
+
+/-- fixes/C13-scan-deps-self-port: the `self:` port of the table the level `lvl` stands in
+    (`(*table)["self:"]`, `table` = the root table or `apropos(dir)->ports`; asked from `App.apropos` as
+    `<dir>self:`), when it carries "enabled by" (`rSelf(T, rEnabledBy(x))`) and `lvl` is not that
+    enabling port `x` itself. -/
+def selfMeta (ap : Path → Option DepMeta) (lvl : Path) : Option DepMeta :=
+  match ap (dirOf lvl ++ selfName) with
+  | none => none
+  | some m =>
+    match m.enabledBy with
+    | none => none
+    | some en => if leafOf lvl = en then none else some m
+
+/-- both parts defined: their concatenation -/
+def optCat : Option (List Nat) → Option (List Nat) → Option (List Nat)
+  | some a, some b => some (a ++ b)
+  | _, _ => none
+
 mutual
 /-- `scan_deps(orig, cur, …)`: the messages (indices) that get `orig` appended to their
     `dependees`, in the order of the `push_back`s.  `none`: the recursion through ports
     without message does not end within `fuel` (cyclic metadata: the code recurses
     until the stack is exhausted). -/
-def scanDeps (ap : Path → Option DepMeta) (mp : MsgMap) : Nat → Path → Option (List Nat)
-  | 0, _ => none
-  | fuel + 1, cur => scanLevels ap mp fuel (levels (cur.length + 1) cur) false
+def scanDeps (ap : Path → Option DepMeta) (mp : MsgMap) (fuel : Nat) (cur : Path) : Option (List Nat) :=
+  match fuel with
+  | 0 => none
+  | fuel + 1 => scanLevels ap mp fuel cur (levels (cur.length + 1) cur) false
+termination_by (fuel, 0, 0)
 
-/-- the `for` loop over `cur_portname`; `parent` = not the first iteration -/
-def scanLevels (ap : Path → Option DepMeta) (mp : MsgMap) (fuel : Nat) :
-    List Path → Bool → Option (List Nat)
-  | [], _ => some []
-  | lvl :: rest, parent =>
-    let here :=
+/-- the `for` loop over `cur_portname`; `parent` = not the first iteration; `start` = `scanned_portname`,
+    the path the call was entered with.  At every level first the port's own metadata, then that of the
+    `self:` port of its table (`for(meta_port : {port, self})`). -/
+def scanLevels (ap : Path → Option DepMeta) (mp : MsgMap) (fuel : Nat) (start : Path)
+    (lvls : List Path) (parent : Bool) : Option (List Nat) :=
+  match lvls with
+  | [] => some []
+  | lvl :: rest =>
+    let own :=
       match ap (if parent then lvl ++ ['/'] else lvl) with
       | none => some []
-      | some m => scanKeys ap mp fuel lvl m.keys
-    match here, scanLevels ap mp fuel rest true with
-    | some a, some b => some (a ++ b)
-    | _, _ => none
+      | some m => scanKeys ap mp fuel start lvl m.keys
+    let slf :=
+      match selfMeta ap lvl with
+      | none => some []
+      | some m => scanKeys ap mp fuel start lvl m.keys
+    optCat (optCat own slf) (scanLevels ap mp fuel start rest true)
+termination_by (fuel, 4, lvls.length)
 
 /-- `for(const char* dep_type : dep_types)` -/
-def scanKeys (ap : Path → Option DepMeta) (mp : MsgMap) (fuel : Nat) (lvl : Path) :
-    List (Option Path) → Option (List Nat)
+def scanKeys (ap : Path → Option DepMeta) (mp : MsgMap) (fuel : Nat) (start lvl : Path)
+    (keys : List (Option Path)) : Option (List Nat) :=
+  match keys with
   | [] => some []
-  | none :: ks => scanKeys ap mp fuel lvl ks
+  | none :: ks => scanKeys ap mp fuel start lvl ks
   | some v :: ks =>
-    match scanItems ap mp fuel lvl (depItems v), scanKeys ap mp fuel lvl ks with
+    match scanItems ap mp fuel start lvl (depItems v), scanKeys ap mp fuel start lvl ks with
     | some a, some b => some (a ++ b)
     | _, _ => none
+termination_by (fuel, 3, keys.length)
 
 /-- the inner `for` over the comma separated entries -/
-def scanItems (ap : Path → Option DepMeta) (mp : MsgMap) (fuel : Nat) (lvl : Path) :
-    List Path → Option (List Nat)
+def scanItems (ap : Path → Option DepMeta) (mp : MsgMap) (fuel : Nat) (start lvl : Path)
+    (items : List Path) : Option (List Nat) :=
+  match items with
   | [] => some []
   | it :: its =>
     let abs := rel2abs it lvl
-    let here := match mp.find abs with
+    let here :=
+      -- fixes/C13-scan-deps-self-edge: `if(abs == scanned_portname) continue;` — a sub-tree enabled by a
+      -- port of its own (`rRecur(sub, rEnabledBy(sub/enabled))`): that port does not wait for itself
+      if abs = start then some []
+      else match mp.find abs with
       | some src => some [src]                       -- port is in the savefile
       | none => scanDeps ap mp fuel abs              -- transitive dependencies
-    match here, scanItems ap mp fuel lvl its with
+    match here, scanItems ap mp fuel start lvl its with
     | some a, some b => some (a ++ b)
     | _, _ => none
+termination_by (fuel, 2, items.length)
 end
 
 /-- `dependees[src].push_back(tgt)` -/
